@@ -2,7 +2,7 @@
    Pinned statements only: each proof is `exact <lemma>` from Proofs/. *)
 From Coq Require Import ZArith Znumtheory List.
 From Strand Require Import Base.ZUtil Generated.Constants Model.Outcome Model.Backend Model.ZBackend
-  Model.Exec Model.Params2048 Proofs.Laws Proofs.ZLaws Proofs.ZInst Proofs.PrimeCerts.
+  Model.Exec Model.Params2048 Model.Ristretto Proofs.Laws Proofs.ZLaws Proofs.ZInst Proofs.PrimeCerts.
 Open Scope Z_scope.
 
 (* the code's own operations satisfy the laws of a commutative group of exponent q acted on by Z_q
@@ -42,6 +42,13 @@ Print Assumptions C15_P2048_safe_prime_from_q.
 Theorem C15_P62_safe_prime : SafePrime (mkP 3404364645881581367).
 Proof. exact P62_safe_prime. Qed.
 Print Assumptions C15_P62_safe_prime.
+
+(* the ristretto255 / Ed25519 group order and the curve25519 field characteristic used by the executable model of the
+   third backend are prime (Pocklington certificate chains checked by the kernel) *)
+Theorem C15_ristretto_order_and_field_prime :
+  prime ell /\ prime fp /\ ell = 2 ^ 252 + 27742317777372353535851937790883648493 /\ fp = 2 ^ 255 - 19.
+Proof. exact (conj ell_prime (conj fp_prime ell_fp_values)). Qed.
+Print Assumptions C15_ristretto_order_and_field_prime.
 
 (* non-vacuity: a concrete parameter set meets the hypotheses *)
 Example C15_nonvacuous : GoodParams (mkP 23) /\ member (mkP 23) 4 /\ member (mkP 23) 1.
